@@ -251,10 +251,17 @@ class World:
 
     # ------------------------------------------------------------------ frame check
     def _frame_check(self, temps, temp_snaps, exempt_ids, call_desc, argvals, outcome,
-                     exempt_arrays=()):
+                     exempt_arrays=(), unjudged_role=None):
+        unjudged = [v for r, v in argvals if r == unjudged_role] if unjudged_role else []
         for idx, h in enumerate(self.heap):
             new = values.snapshot(h.value)
             if new == h.snap:
+                continue
+            if any(h.value is v for v in unjudged):
+                h.snap = new
+                h.kind = values.classify(h.value)
+                h.n = _length(h.value)
+                self.probe('p_wrong_type_argument_not_judged')
                 continue
             if (exempt_ids and (values.reach_ids(h.value) & exempt_ids)) or \
                     (exempt_arrays and _shares(h.value, exempt_arrays)):
@@ -282,6 +289,9 @@ class World:
         for (role, v), old in zip(temps, temp_snaps):
             new = values.snapshot(v)
             if new != old:
+                if unjudged_role and (role == unjudged_role or role.startswith(unjudged_role + '[')):
+                    self.probe('p_wrong_type_argument_not_judged')
+                    continue
                 if (exempt_ids and (values.reach_ids(v) & exempt_ids)) or \
                         (exempt_arrays and _shares(v, exempt_arrays)):
                     continue
@@ -393,7 +403,8 @@ class World:
                 (type(res).__name__, str(res)[:150], rec.get('args'), rec.get('kwargs')))
         if outcome == 'raise':
             self.probe('p_exception_path')
-        self._frame_check(temps, temp_snaps, exempt, key, argvals, tag, exempt_arrays)
+        self._frame_check(temps, temp_snaps, exempt, key, argvals, tag, exempt_arrays,
+                          rec.get('fault_unjudged'))
         if self._gchange:
             self.fail('frame', call=key, outcome=tag, changed='process-global settings',
                       role='hidden state', settings=self._gchange)
@@ -495,7 +506,8 @@ class World:
         temp_snaps = [values.snapshot(v) for _, v in temps]
         outcome, res = self._invoke(fn, inp['args'], inp['kwargs'])
         tag = 'ok' if outcome == 'ok' else 'raise:' + type(res).__name__
-        self._frame_check(temps, temp_snaps, set(), rec['key'] + ' (re-issued)', allin, tag)
+        self._frame_check(temps, temp_snaps, set(), rec['key'] + ' (re-issued)', allin, tag,
+                          (), rec.get('fault_unjudged'))
         if self._gchange:
             self.fail('frame', call=rec['key'] + ' (re-issued)', outcome=tag,
                       changed='process-global settings', role='hidden state', settings=self._gchange)
@@ -643,6 +655,21 @@ ORDERS = ['zyx', 'xyz', 'yxz', 'arm', 'vehicle', 'camera']
 ORIENTS = ['rpy/zyx', 'rpy/yxz', 'eul', 'angvec']
 BAD_KINDS = ['sc', 'v2', 'v3', 'v4', 'v6', 'R2', 'T2', 'R3', 'T3', 'm33', 'm66', 'p3', 'none', 'str',
              'q', 'se3', 'so3', 'ANYOBJ', 'int', 'bool']
+
+
+def kind_category(kind):
+    """Coarse Python-type category of the values a kind produces."""
+    if kind in ('unit', 'order', 'orient', 'out', 'str', 'fmt'):
+        return 'str'
+    if kind == 'stream':
+        return 'stream'
+    if kind == 'none':
+        return 'none'
+    if kind == 'slice':
+        return 'slice'
+    if kind.startswith(('obj:', 'SAME', 'LO:')) or kind in ('WRONG', 'ANYOBJ'):
+        return 'object'
+    return 'numeric'        # numbers, booleans, arrays, lists / tuples of numbers or arrays
 
 
 class NeedObject(Exception):
@@ -815,6 +842,7 @@ def gen_call(entry, world, cfg, rng, recv_ref=None, multi=False, single=False):
     args, kwargs = [], {}
     positional = True
     prev = None
+    slot_kinds = {}
     for (pname, optional, kinds) in tmpl:
         if optional and rng.random() > (0.5 if cfg.get('focus') == 'deep' else cfg.get('opt_rate', 0.3)):
             positional = False
@@ -836,8 +864,10 @@ def gen_call(entry, world, cfg, rng, recv_ref=None, multi=False, single=False):
         prev = (kind, spec)
         if positional and not optional and pname != 'file':
             args.append(spec)
+            slot_kinds[('a', len(args) - 1)] = kinds
         else:
             kwargs[pname] = spec
+            slot_kinds[('k', pname)] = kinds
     if entry.how in ('meth', 'prop', 'mut'):
         rec['recv'] = recv_ref
     elif entry.how in ('op', 'iop'):
@@ -878,6 +908,14 @@ def gen_call(entry, world, cfg, rng, recv_ref=None, multi=False, single=False):
             else:
                 rec['kwargs'][which[1]] = bad
             rec['fault'] = 'bad_args'
+            accepted = {kind_category(k) for k in slot_kinds.get(which, [])}
+            if entry.how in ('op', 'iop'):
+                accepted = {'numeric', 'object'}
+            if accepted and kind_category(bk) not in accepted:
+                # a value of a type the parameter does not accept at all (a list where a format
+                # string belongs): the property quantifies over accepted argument forms, so what
+                # happens to THAT value is not judged; everything else still is
+                rec['fault_unjudged'] = ('arg%d' % which[1]) if which[0] == 'a' else ('kw:' + which[1])
     return rec
 
 
@@ -1029,7 +1067,7 @@ def simplify(rec):
     if rec.get('op') != 'call':
         return out
     for key in ('keep_args', 'fault'):
-        if key in rec:
+        if key in rec and not (key == 'fault' and 'fault_unjudged' in rec):
             r = dict(rec)
             r.pop(key)
             out.append(r)
